@@ -693,6 +693,34 @@ def _adjacency_builder(ctx, ci) -> Optional[FuncInfo]:
     return cam
 
 
+def _inline_properties(ctx, ci, node: ast.AST) -> ast.AST:
+    """`self.<p>` where <p> is a read-only property of the class (found through its MRO, so a mixin's abstract property
+    resolves to the concrete class's override) whose body is one return: replaced by the returned expression."""
+    import copy
+
+    def prop_value(name: str) -> Optional[ast.AST]:
+        fi = ctx.p.lookup_method(ci.qualname, name)
+        if fi is None or not any(dotted(d) in ("property", "functools.cached_property", "cached_property")
+                                 for d in fi.node.decorator_list):
+            return None
+        body = [st for st in fi.node.body if not (isinstance(st, ast.Expr) and isinstance(st.value, ast.Constant))]
+        if len(body) == 1 and isinstance(body[0], ast.Return) and body[0].value is not None:
+            return body[0].value
+        return None
+
+    class Tr(ast.NodeTransformer):
+        def visit_Attribute(self, n):
+            self.generic_visit(n)
+            if isinstance(n.ctx, ast.Load) and isinstance(n.value, ast.Name) and n.value.id == "self":
+                v = prop_value(n.attr)
+                if v is not None:
+                    return ast.copy_location(copy.deepcopy(v), n)
+            return n
+    out = Tr().visit(copy.deepcopy(node))
+    ast.fix_missing_locations(out)
+    return out
+
+
 def _adjacency(ctx, ci, cam: FuncInfo, strides, comps, total):
     """Index expressions in create_adjacency_matrix agree with get_site_num; paired stores;
     bounds tests of the right shape."""
@@ -700,6 +728,7 @@ def _adjacency(ctx, ci, cam: FuncInfo, strides, comps, total):
     loops: Dict[str, Mono] = {}  # loop var -> extent monomial
     from ..model import norm
     cnode = norm(cam.node)          # single-use temporaries substituted into their use
+    cnode = _inline_properties(ctx, ci, cnode)
     for st in ast.walk(cnode):
         if isinstance(st, ast.Assign) and len(st.targets) == 1:
             t, v = st.targets[0], st.value
@@ -751,6 +780,17 @@ def _adjacency(ctx, ci, cam: FuncInfo, strides, comps, total):
         if None in pos_vars or len(pos_vars) != len(comps):
             raise Unmodelled(f"{ci.qualname}.create_adjacency_matrix: unmodelled position tuple")
         for k, v in enumerate(pos_vars):
+            if loops.get(v) is None:
+                rng = next((st.iter for st in ast.walk(cnode) if isinstance(st, ast.For) and isinstance(st.target, ast.Name)
+                            and st.target.id == v), None)
+                free = [n.id for n in ast.walk(rng) if isinstance(n, ast.Name) and n.id not in env
+                        and n.id not in ("self", "range", "len")] if rng is not None else ["?"]
+                attrs = [n for n in ast.walk(rng) if isinstance(n, ast.Attribute) and _self_attr(n) is None] \
+                    if rng is not None else []
+                if rng is None or free or attrs:
+                    raise Unmodelled(f"{ci.qualname}.create_adjacency_matrix: the extent of loop variable '{v}' "
+                                     f"({ast.unparse(rng) if rng is not None else 'no range loop'}) is not written in "
+                                     f"terms of the lattice's fields")
             ok = loops.get(v) == extent[k]
             ctx.ob("LAT-3", f"{ci.qualname}.create_adjacency_matrix: axis {k} loop extent", ok,
                    f"loop variable '{v}' ranges over {loops.get(v)}, axis {k} of the site list has "
@@ -866,8 +906,50 @@ def _adjacency(ctx, ci, cam: FuncInfo, strides, comps, total):
                 stores.append((ast.unparse(t.value), ast.unparse(t.slice.elts[0]),
                                ast.unparse(t.slice.elts[1]), ast.unparse(st.value), st.lineno))
     pairs_ok = bool(stores)
+    # what the builder hands back: the stored array itself (`return h`), or an expression of it.  h | h.T,
+    # maximum(h, h.T), h + h.T, ((h + h.T) > 0) are symmetric whatever was stored; any other expression of h is a form
+    # this rule does not model.
+    from ..model import returned_values
+    rets_ = [v_ for _, v_ in returned_values(cnode)]
+    sym_on_return: Dict[str, Optional[bool]] = {}
+    for (b, *_r) in stores:
+        verdicts = []
+        for rv in rets_:
+            if isinstance(rv, ast.Name) and rv.id == b:
+                verdicts.append(False)          # the stored array as it is
+                continue
+
+            def is_b(n):
+                return isinstance(n, ast.Name) and n.id == b
+
+            def is_bT(n):
+                return (isinstance(n, ast.Attribute) and n.attr == "T" and is_b(n.value)) or \
+                    (isinstance(n, ast.Call) and (dotted(n.func) or "").split(".")[-1] in ("transpose", "swapaxes")
+                     and n.args and is_b(n.args[0])) or \
+                    (isinstance(n, ast.Call) and isinstance(n.func, ast.Attribute) and n.func.attr == "transpose"
+                     and is_b(n.func.value) and not n.args)
+            found = None
+            for n in ast.walk(rv):
+                pair = None
+                if isinstance(n, ast.BinOp) and isinstance(n.op, (ast.BitOr, ast.Add)):
+                    pair = (n.left, n.right)
+                elif isinstance(n, ast.Call) and (dotted(n.func) or "").split(".")[-1] in (
+                        "maximum", "logical_or", "bitwise_or", "add", "fmax") and len(n.args) == 2:
+                    pair = tuple(n.args)
+                if pair and ((is_b(pair[0]) and is_bT(pair[1])) or (is_b(pair[1]) and is_bT(pair[0]))):
+                    found = True
+            verdicts.append(found)
+        sym_on_return[b] = True if verdicts and all(v_ is True for v_ in verdicts) else \
+            (False if verdicts and all(v_ is False for v_ in verdicts) else None)
     for (b, i, j, v, line) in stores:
         if not any(b2 == b and i2 == j and j2 == i and v2 == v for (b2, i2, j2, v2, _) in stores):
+            if sym_on_return.get(b) is True:
+                ctx.ob("PAIR-5", f"{ci.qualname}.create_adjacency_matrix: {b} is symmetrised with its transpose on return",
+                       True, f"{b}[{i}, {j}] = {v} stored one way; the returned matrix is {b} combined with {b}.T", cam, line)
+                continue
+            if sym_on_return.get(b) is None:
+                raise Unmodelled(f"{ci.qualname}.create_adjacency_matrix: {b}[{i}, {j}] is stored one way and the builder "
+                                 f"returns an expression of {b} this rule does not model")
             pairs_ok = False
             ctx.ob("PAIR-5", f"{ci.qualname}.create_adjacency_matrix: symmetric store of {b}[{i}, {j}]",
                    False, f"{b}[{i}, {j}] = {v} has no matching {b}[{j}, {i}] = {v}", cam, line)
@@ -890,6 +972,10 @@ def _adjacency(ctx, ci, cam: FuncInfo, strides, comps, total):
                 lo_ok = isinstance(nd.left, ast.Constant) and nd.left.value == 0 and isinstance(
                     nd.ops[0], ast.LtE)
                 hi = _mono(nd.comparators[1], env)
+                if hi is None and any(isinstance(n, ast.Name) and n.id not in env and n.id != "self"
+                                      for n in ast.walk(nd.comparators[1])):
+                    raise Unmodelled(f"{ci.qualname}.create_adjacency_matrix: bound `{ast.unparse(nd.comparators[1])}` "
+                                     f"is not written in terms of the lattice's fields")
                 hi_ok = isinstance(nd.ops[1], ast.Lt) and hi == extent[k]
                 ctx.ob("LAT-4", f"{ci.qualname}.create_adjacency_matrix: bounds test on axis {k}",
                        lo_ok and hi_ok,
@@ -986,6 +1072,10 @@ def _adjacency(ctx, ci, cam: FuncInfo, strides, comps, total):
                         n.value.id == nm and isinstance(n.slice, ast.Name) and mask_ok.get(n.slice.id, {}).get(k)]
             if uses and len(selected) == len(uses) and not guarded.get(k):
                 guarded[k] = True
+    if nb_vars is None and nb_name is None:
+        # the neighbour coordinates are not named in one of the modelled ways (a tuple loop target, a loop variable
+        # indexed [k], columns nbrs[:, k]): which tests guard which coordinate is not decided
+        return
     _ADJ_GUARDED[ci.qualname] = guarded
 
 
